@@ -88,8 +88,10 @@ where
             .merge_staged_commit(&self.provider, staged_commit)
             .map_err(|_e| Error::Message("Failed to merge staged commit".to_string()))?;
 
-        // Check if the local member was removed by this commit
-        if mls_group.own_leaf().is_none() {
+        // Check if the local member was removed by this commit. `own_leaf()` looks at the leaf
+        // INDEX, which a member added by the same commit may have taken over: ask the group
+        // state as well (OpenMLS marks the group inactive when the own leaf was removed).
+        if mls_group.own_leaf().is_none() || !mls_group.is_active() {
             return self.handle_local_member_eviction(&group_id, event);
         }
 
